@@ -590,10 +590,15 @@ void urcu_bp_unregister(struct rcu_reader *rcu_reader_reg)
 	mutex_lock(&rcu_registry_lock);
 	remove_thread(rcu_reader_reg);
 	mutex_unlock(&rcu_registry_lock);
+	/*
+	 * Keep signals disabled while urcu_bp_exit() holds init_lock: a
+	 * handler using the read-side would register the thread again
+	 * and take init_lock recursively.
+	 */
+	urcu_bp_exit();
 	ret = pthread_sigmask(SIG_SETMASK, &oldmask, NULL);
 	if (ret)
 		abort();
-	urcu_bp_exit();
 }
 
 /*
